@@ -68,7 +68,12 @@ Verdict runCut(const FileCase& c, size_t cut, Run& run, const std::string& cutCl
 	std::string prefix = c.bytes.substr(0, cut);
 	run.cls("cut:" + cutClass);
 	run.cls("kind:" + c.kind);
-	ChildResult r = runIsolated([&]() { return childBody(prefix); }, run.replaying ? 40 : 20);
+	// once this process has seen a hang (reported, and confirmed separately by replays with the long
+	// limit) further hangs are only counted: a shorter limit keeps a tree that hangs often within the budget
+	static bool sawHang = false;
+	ChildResult r = runIsolated([&]() { return childBody(prefix); }, run.replaying ? 40 : sawHang ? 6 : 20);
+	if (r.timeout)
+		sawHang = true;
 	if (run.wantSample())
 		run.sample(J().s("file", c.kind + ":" + c.label).s("version", c.version).u("file_bytes", c.bytes.size()).u("cut_at", cut).s("cut_class", cutClass).s("result", r.ok ? r.output.substr(0, 60) : r.kind).str());
 	if (r.ok)
